@@ -75,7 +75,7 @@ fn run_render<F: Function + MathFunction + RenderHints>(
     Ok(render(bound, &cfg, &ec))
 }
 
-fn random_mat4(rng: &mut Rng) -> Matrix4<f32> {
+pub fn random_mat4(rng: &mut Rng) -> Matrix4<f32> {
     if rng.chance(0.25) {
         return Matrix4::identity();
     }
